@@ -165,6 +165,15 @@ pub fn run_dispatch<N: AsRef<[Link]>>(
 
         // Advance one train until reaching a deadlock free configuration
         loop {
+            #[cfg(feature = "verif")]
+            crate::verif_hooks::emit_dispatch(&crate::verif_hooks::DispatchSnapshot {
+                phase: crate::verif_hooks::DispatchPhase::AdvanceAttempt,
+                iteration: verif_iteration,
+                train_idx_moved: train_idx_curr,
+                link_disp_auths: &link_disp_auths,
+                links_blocked: &links_blocked,
+                train_disps: &train_disps,
+            });
             if train_disps[train_idx_curr.idx()].advance(
                 &mut link_disp_auths,
                 &mut links_blocked,
